@@ -695,6 +695,16 @@ func (hni *HyperNodesInfo) refreshReady() {
 // The ancestor set is computed once and reused across all BuildHyperNodeCache calls
 // to avoid repeated allocations.
 func (hni *HyperNodesInfo) rebuildCache(name string, nodes []*corev1.Node) error {
+	// A HyperNode that several HyperNodes list as a member has no single ancestor chain: GetAncestors
+	// would follow just one of the claimers and the other claim would go unnoticed (and could even be
+	// reported as repaired). A HyperNode that is being deleted is exempt: its deletion must go through.
+	if hn, ok := hni.hyperNodes[name]; !ok || !hn.isDeleting {
+		if claimers := hni.hyperNodesThatClaimMember(name, name); len(claimers) > 1 {
+			slices.Sort(claimers)
+			return fmt.Errorf("HyperNode %s is a member of more than one HyperNode: %v", name, claimers)
+		}
+	}
+
 	ancestors := hni.hyperNodes.GetAncestors(name)
 	ancestorSet := sets.New(ancestors...)
 
